@@ -1,7 +1,9 @@
 (* Lemmas for C06 (truncation). *)
-From Coq Require Import List ZArith Bool Lia.
+From Coq Require Import List ZArith Bool Lia ZifyBool.
+From Coq Require Import Init.Byte.
 Import ListNotations.
-From NpTdms Require Import Base.Bytes Base.Res Model.Tokens Model.SegState.
+From NpTdms Require Import Base.Bytes Base.Res Model.Tokens Model.SegState Model.Reader
+     Proofs.SegStateProofs.
 Local Open Scope Z_scope.
 
 Lemma firstn_skipn_firstn {A} (l : list A) (k p n : nat) :
@@ -56,3 +58,554 @@ Proof.
   destruct (k <? dp); reflexivity.
 Qed.
 
+
+(* ======================================================================== *)
+(* A1 -- number of chunks of a truncated segment                             *)
+(* ======================================================================== *)
+
+Ltac Zify.zify_post_hook ::= Z.to_euclidean_division_equations.
+
+(* what _calculate_chunks computes for a positive chunk size *)
+Definition nchunks_of (total csize : Z) : Z :=
+  if total mod csize =? 0 then total / csize else 1 + total / csize.
+
+(* A complete segment holds a whole number of chunks.  Cut anywhere inside its
+   raw data, the number of chunks the reader counts (a partial one included)
+   does not exceed the complete count, and the number of COMPLETE chunks is
+   strictly smaller. *)
+Lemma truncated_chunk_count csize total total' :
+  forall (Hcsize : 0 < csize) (Hcut : 0 <= total' < total) (Hwhole : total mod csize = 0),
+    nchunks_of total' csize <= total / csize /\
+    0 <= total' / csize < total / csize /\
+    (total' mod csize <> 0 -> nchunks_of total' csize = 1 + total' / csize) /\
+    (total' mod csize = 0 -> nchunks_of total' csize = total' / csize).
+Proof.
+  intros.
+  assert (Ht : total = csize * (total / csize)).
+  { apply Z.div_exact; lia. }
+  assert (Hlt : total' / csize < total / csize).
+  { apply Z.div_lt_upper_bound; lia. }
+  assert (H0 : 0 <= total' / csize) by (apply Z.div_pos; lia).
+  unfold nchunks_of. destruct (total' mod csize =? 0) eqn:E.
+  - apply Z.eqb_eq in E. repeat split; try lia.
+  - apply Z.eqb_neq in E. repeat split; try lia.
+Qed.
+
+Example truncated_chunk_count_ex :
+  nchunks_of 120 40 = 3 /\ nchunks_of 119 40 = 3 /\ nchunks_of 81 40 = 3 /\
+  nchunks_of 80 40 = 2 /\ nchunks_of 79 40 = 2 /\ nchunks_of 1 40 = 1 /\ nchunks_of 0 40 = 0.
+Proof. vm_compute. repeat split. Qed.
+
+(* the model's [calculate_chunks] computes exactly [nchunks_of], and the
+   override is present exactly when the data is not a whole number of chunks *)
+Lemma calculate_chunks_count toc inc objs total csize n fin :
+  forall (Hcs : chunk_size objs = Ok csize) (Hpos : 0 < csize) (Htot : 0 <= total)
+         (Hcalc : calculate_chunks toc inc objs total = Ok (n, fin)),
+    n = nchunks_of total csize /\
+    (total mod csize = 0 -> fin = None) /\
+    (total mod csize <> 0 ->
+     exists f, fin = Some f /\ final_chunk_lengths toc inc objs csize (total mod csize) = Ok f).
+Proof.
+  intros. unfold calculate_chunks in Hcalc. rewrite Hcs in Hcalc. cbn [bind] in Hcalc.
+  replace ((csize <? 0) || (total <? 0)) with false in Hcalc by lia.
+  replace (csize =? 0) with false in Hcalc by lia.
+  unfold nchunks_of. destruct (total mod csize =? 0) eqn:E.
+  - injection Hcalc as <- <-. apply Z.eqb_eq in E. repeat split; try reflexivity. intros; contradiction.
+  - apply Z.eqb_neq in E.
+    destruct (final_chunk_lengths toc inc objs csize (total mod csize)) as [f|] eqn:Ef;
+      cbn [bind] in Hcalc; [|discriminate].
+    injection Hcalc as <- <-. repeat split; try reflexivity.
+    + intros; contradiction.
+    + intros _. exists f. split; reflexivity.
+Qed.
+
+(* ======================================================================== *)
+(* A2 -- contiguous data: whole leading channels, a partial one, nothing     *)
+(* ======================================================================== *)
+
+(* the element size [contig_final] divides by, and a channel's bytes per chunk *)
+Definition osz (o : sobj) : Z := match sized o with Some s => s | None => 1 end.
+Definition obytes (o : sobj) : Z := so_nvals o * osz o.
+(* reader._number_of_segment_values: final_chunk_lengths_override.get(path, 0) *)
+Definition lookup0 (p : bytes) (f : alist Z) : Z :=
+  match alookup p f with Some v => v | None => 0 end.
+
+Lemma tds_size_pos ty s : tds_size ty = Some (Some s) -> 0 < s.
+Proof.
+  unfold tds_size. intros H.
+  repeat match type of H with
+         | (if ?c then _ else _) = _ => destruct c
+         end; inversion H; lia.
+Qed.
+
+Lemma osz_pos o : 0 < osz o.
+Proof.
+  unfold osz, sized. destruct (so_dtype o) as [dt|]; [|lia].
+  destruct (tds_size dt) as [[s|]|] eqn:E; try lia. exact (tds_size_pos dt s E).
+Qed.
+
+Lemma data_objs_cons o r :
+  data_objs (o :: r) = if so_has_data o then o :: data_objs r else data_objs r.
+Proof. reflexivity. Qed.
+
+Lemma contig_final_cons o r rem acc :
+  contig_final (o :: r) rem acc =
+  if so_has_data o then
+    if obytes o <? rem then contig_final r (rem - obytes o) (aset (so_path o) (so_nvals o) acc)
+    else aset (so_path o) (rem / osz o) acc
+  else contig_final r rem acc.
+Proof. cbn [contig_final]. unfold obytes, osz. destruct (so_has_data o); reflexivity. Qed.
+
+(* General form, for any accumulator: the data objects split into the channels
+   kept whole ([pre], whose bytes are strictly fewer than [rem]), then the first
+   channel that does not fit ([o], which gets the remaining bytes divided by its
+   element size), then channels that are not assigned at all ([post]).  Paths
+   of no data object keep their binding in [acc]. *)
+Lemma contig_final_gen objs : forall rem acc,
+  NoDup (map so_path (data_objs objs)) ->
+  (forall o, In o (data_objs objs) -> 0 <= so_nvals o) ->
+  0 <= rem ->
+  exists pre rest,
+    data_objs objs = pre ++ rest /\
+    0 <= rem - zsum (map obytes pre) /\
+    (pre <> [] -> zsum (map obytes pre) < rem) /\
+    (forall p, ~ In p (map so_path (data_objs objs)) ->
+               alookup p (contig_final objs rem acc) = alookup p acc) /\
+    (forall o, In o pre -> alookup (so_path o) (contig_final objs rem acc) = Some (so_nvals o)) /\
+    match rest with
+    | [] => True
+    | o :: post =>
+      rem - zsum (map obytes pre) <= obytes o /\
+      alookup (so_path o) (contig_final objs rem acc)
+      = Some ((rem - zsum (map obytes pre)) / osz o) /\
+      forall o', In o' post ->
+                 alookup (so_path o') (contig_final objs rem acc) = alookup (so_path o') acc
+    end.
+Proof.
+  induction objs as [|o r IH]; intros rem acc Hnd Hnv Hrem.
+  - exists [], []. cbn. repeat split; try lia; try reflexivity; intros; contradiction.
+  - rewrite contig_final_cons. rewrite data_objs_cons in *.
+    destruct (so_has_data o) eqn:Ehd; [|apply IH; assumption].
+    cbn [map] in Hnd. apply NoDup_cons_iff in Hnd. destruct Hnd as [Hnotin Hnd].
+    assert (Hob : 0 <= obytes o).
+    { unfold obytes. pose proof (osz_pos o). specialize (Hnv o (or_introl eq_refl)). nia. }
+    destruct (obytes o <? rem) eqn:Elt.
+    + destruct (IH (rem - obytes o) (aset (so_path o) (so_nvals o) acc) Hnd
+                   (fun o' H => Hnv o' (or_intror H)) ltac:(lia))
+        as (pre & rest & Hsplit & Hge & Hlt & Hout & Hpre & Hrest).
+      exists (o :: pre), rest. cbn [map zsum fold_right app].
+      fold (zsum (map obytes pre)).
+      split; [rewrite Hsplit; reflexivity|].
+      split; [lia|].
+      split; [intros _; destruct pre as [|x pre]; [cbn in *; lia|specialize (Hlt ltac:(discriminate)); lia]|].
+      split.
+      { intros p Hp. cbn [In] in Hp.
+        rewrite Hout by (intros Hin; apply Hp; right; exact Hin).
+        rewrite alookup_aset. destruct (bytes_eqb p (so_path o)) eqn:Ep; [|reflexivity].
+        apply bytes_eqb_eq in Ep. exfalso. apply Hp. left. symmetry. exact Ep. }
+      split.
+      { intros o' [Ho'|Ho'].
+        - subst o'. rewrite Hout by exact Hnotin. rewrite alookup_aset, bytes_eqb_refl. reflexivity.
+        - apply Hpre. exact Ho'. }
+      destruct rest as [|x post]; [exact I|].
+      destruct Hrest as (Hxle & Hx & Hpost).
+      split; [lia|]. split.
+      { rewrite Hx. f_equal. f_equal. lia. }
+      intros o' Ho'. rewrite (Hpost o' Ho'). rewrite alookup_aset.
+      destruct (bytes_eqb (so_path o') (so_path o)) eqn:Ep; [|reflexivity].
+      apply bytes_eqb_eq in Ep. exfalso. apply Hnotin. rewrite <- Ep.
+      apply in_map. rewrite Hsplit. apply in_or_app. right. right. exact Ho'.
+    + exists [], (o :: data_objs r). cbn [map zsum fold_right app].
+      split; [reflexivity|]. split; [lia|]. split; [intros H; contradiction|].
+      split.
+      { intros p Hp. rewrite alookup_aset.
+        destruct (bytes_eqb p (so_path o)) eqn:Ep; [|reflexivity].
+        apply bytes_eqb_eq in Ep. exfalso. apply Hp. left. symmetry. exact Ep. }
+      split; [intros o' []|].
+      split; [lia|]. split.
+      { rewrite alookup_aset, bytes_eqb_refl. f_equal. f_equal. lia. }
+      intros o' Ho'. rewrite alookup_aset.
+      destruct (bytes_eqb (so_path o') (so_path o)) eqn:Ep; [|reflexivity].
+      apply bytes_eqb_eq in Ep. exfalso. apply Hnotin. rewrite <- Ep. apply in_map. exact Ho'.
+Qed.
+
+Lemma zsum_cons x a : zsum (x :: a) = x + zsum a.
+Proof. reflexivity. Qed.
+
+Lemma zsum_app a b : zsum (a ++ b) = zsum a + zsum b.
+Proof.
+  induction a as [|x a IH]; [reflexivity|].
+  rewrite <- app_comm_cons, !zsum_cons, IH. lia.
+Qed.
+
+Lemma zsum_map_zero {A} (g : A -> Z) l : (forall x, In x l -> g x = 0) -> zsum (map g l) = 0.
+Proof.
+  induction l as [|x l IH]; intros H; [reflexivity|]. cbn [map]. rewrite zsum_cons.
+  rewrite (H x (or_introl eq_refl)), IH; [reflexivity|]. intros y Hy. apply H. right. exact Hy.
+Qed.
+
+(* A2, structure: the dictionary [contig_final] returns for an incomplete
+   contiguous segment. *)
+Theorem contig_final_structure objs rem :
+  forall (Hnodup : NoDup (map so_path (data_objs objs)))
+         (Hnvals : forall o, In o (data_objs objs) -> 0 <= so_nvals o)
+         (Hrem : 0 <= rem),
+  exists pre rest,
+    data_objs objs = pre ++ rest /\
+    0 <= rem - zsum (map obytes pre) /\
+    (pre <> [] -> zsum (map obytes pre) < rem) /\
+    (forall o, In o pre -> alookup (so_path o) (contig_final objs rem []) = Some (so_nvals o)) /\
+    match rest with
+    | [] => True
+    | o :: post =>
+      rem - zsum (map obytes pre) <= obytes o /\
+      alookup (so_path o) (contig_final objs rem [])
+      = Some ((rem - zsum (map obytes pre)) / osz o) /\
+      forall o', In o' post -> alookup (so_path o') (contig_final objs rem []) = None
+    end.
+Proof.
+  intros. destruct (contig_final_gen objs rem [] Hnodup Hnvals Hrem)
+    as (pre & rest & Hsplit & Hge & Hlt & _ & Hpre & Hrest).
+  exists pre, rest. repeat (split; [assumption|]).
+  destruct rest as [|o post]; [exact I|]. exact Hrest.
+Qed.
+
+(* A2, bounds: no channel gets more values than a complete chunk holds, and the
+   values assigned never need more bytes than are there. *)
+Theorem contig_final_le objs rem :
+  forall (Hnodup : NoDup (map so_path (data_objs objs)))
+         (Hnvals : forall o, In o (data_objs objs) -> 0 <= so_nvals o)
+         (Hrem : 0 <= rem),
+    (forall o, In o (data_objs objs) ->
+               0 <= lookup0 (so_path o) (contig_final objs rem []) <= so_nvals o) /\
+    zsum (map (fun o => lookup0 (so_path o) (contig_final objs rem []) * osz o) (data_objs objs))
+    <= rem.
+Proof.
+  intros. destruct (contig_final_structure objs rem Hnodup Hnvals Hrem)
+    as (pre & rest & Hsplit & Hge & Hlt & Hpre & Hrest).
+  set (f := contig_final objs rem []) in *.
+  assert (Hpre0 : forall o, In o pre -> lookup0 (so_path o) f = so_nvals o).
+  { intros o Ho. unfold lookup0. rewrite (Hpre o Ho). reflexivity. }
+  split.
+  - intros o Ho. rewrite Hsplit in Ho. apply in_app_or in Ho. destruct Ho as [Ho|Ho].
+    + rewrite (Hpre0 o Ho). split; [|lia]. apply Hnvals. rewrite Hsplit. apply in_or_app. left. exact Ho.
+    + destruct rest as [|x post]; [destruct Ho|].
+      destruct Hrest as (Hxle & Hx & Hpost).
+      assert (Hnv : 0 <= so_nvals o).
+      { apply Hnvals. rewrite Hsplit. apply in_or_app. right. exact Ho. }
+      destruct Ho as [Ho|Ho].
+      * subst x. unfold lookup0. rewrite Hx. pose proof (osz_pos o) as Hsz.
+        change (obytes o) with (so_nvals o * osz o) in Hxle.
+        split; [apply Z.div_pos; lia|]. apply Z.div_le_upper_bound; lia.
+      * unfold lookup0. rewrite (Hpost o Ho). lia.
+  - rewrite Hsplit, map_app, zsum_app.
+    rewrite (map_ext_in _ obytes) by (intros o Ho; rewrite (Hpre0 o Ho); reflexivity).
+    destruct rest as [|x post]; [cbn; lia|].
+    destruct Hrest as (Hxle & Hx & Hpost). cbn [map]. rewrite zsum_cons.
+    rewrite (zsum_map_zero _ post) by (intros o Ho; unfold lookup0; rewrite (Hpost o Ho); reflexivity).
+    unfold lookup0 at 1. rewrite Hx. pose proof (osz_pos x).
+    assert ((rem - zsum (map obytes pre)) / osz x * osz x <= rem - zsum (map obytes pre)).
+    { rewrite Z.mul_comm. apply Z.mul_div_le. lia. }
+    lia.
+Qed.
+
+Example contig_final_ex :
+  let o p n := mkSobj p true n (n * 4) (Some 3) None in
+  let objs := [o [x61] 10; mkSobj [x78] false 10 40 (Some 3) None; o [x62] 10; o [x63] 10] in
+  (* 120-byte chunks cut to 55 bytes: 10 values, then 3 (15 bytes / 4), then none *)
+  contig_final objs 55 [] = [([x61], 10); ([x62], 3)] /\
+  map (fun ob => lookup0 (so_path ob) (contig_final objs 55 [])) (data_objs objs) = [10; 3; 0].
+Proof. vm_compute. split; reflexivity. Qed.
+
+(* ======================================================================== *)
+(* A3 -- interleaved data (and complete segments): the proportional rule      *)
+(* ======================================================================== *)
+
+Theorem interleaved_final_le nvals rem csize :
+  forall (Hnvals : 0 <= nvals) (Hrem : 0 <= rem < csize),
+    0 <= nvals * rem / csize <= nvals /\
+    (0 < nvals -> nvals * rem / csize < nvals).
+Proof.
+  intros. assert (Hc : 0 < csize) by lia.
+  split; [split|].
+  - apply Z.div_pos; nia.
+  - apply Z.div_le_upper_bound; nia.
+  - intros Hp. apply Z.div_lt_upper_bound; nia.
+Qed.
+
+(* with [n] values of every channel per chunk and rows of [width] bytes, the
+   rule gives the number of COMPLETE rows among the [rem] bytes *)
+Theorem interleaved_whole_rows n width rem :
+  forall (Hn : 0 < n) (Hwidth : 0 < width), n * rem / (n * width) = rem / width.
+Proof. intros. apply Z.div_mul_cancel_l; lia. Qed.
+
+(* the dictionary built by the proportional branch of _compute_final_chunk_lengths *)
+Definition prop_final (objs : list sobj) (csize rem : Z) : alist Z :=
+  fold_left (fun acc o => if so_has_data o then aset (so_path o) (so_nvals o * rem / csize) acc else acc)
+            objs [].
+
+Lemma prop_fold_other csize rem objs : forall acc p,
+  ~ In p (map so_path (data_objs objs)) ->
+  alookup p (fold_left (fun acc o => if so_has_data o
+                                     then aset (so_path o) (so_nvals o * rem / csize) acc else acc)
+                       objs acc) = alookup p acc.
+Proof.
+  induction objs as [|x r IH]; intros acc p Hp; [reflexivity|].
+  cbn [fold_left]. rewrite data_objs_cons in Hp. destruct (so_has_data x) eqn:Ex.
+  - cbn [map In] in Hp. rewrite IH by (intros H; apply Hp; right; exact H).
+    rewrite alookup_aset. destruct (bytes_eqb p (so_path x)) eqn:Ep; [|reflexivity].
+    apply bytes_eqb_eq in Ep. exfalso. apply Hp. left. symmetry. exact Ep.
+  - apply IH. exact Hp.
+Qed.
+
+Lemma prop_fold_lookup csize rem objs : forall acc o,
+  NoDup (map so_path (data_objs objs)) -> In o (data_objs objs) ->
+  alookup (so_path o)
+          (fold_left (fun acc o => if so_has_data o
+                                   then aset (so_path o) (so_nvals o * rem / csize) acc else acc)
+                     objs acc) = Some (so_nvals o * rem / csize).
+Proof.
+  induction objs as [|x r IH]; intros acc o Hnd Ho; [destruct Ho|].
+  cbn [fold_left]. rewrite data_objs_cons in *. destruct (so_has_data x) eqn:Ex.
+  - cbn [map] in Hnd. apply NoDup_cons_iff in Hnd. destruct Hnd as [Hnotin Hnd].
+    destruct Ho as [Ho|Ho].
+    + subst x. rewrite prop_fold_other by exact Hnotin.
+      rewrite alookup_aset, bytes_eqb_refl. reflexivity.
+    + apply IH; assumption.
+  - apply IH; assumption.
+Qed.
+
+Theorem prop_final_lookup objs csize rem o :
+  forall (Hnodup : NoDup (map so_path (data_objs objs))) (Hin : In o (data_objs objs)),
+    alookup (so_path o) (prop_final objs csize rem) = Some (so_nvals o * rem / csize).
+Proof. intros. apply prop_fold_lookup; assumption. Qed.
+
+Lemma zsum_map_scale {A} (g : A -> Z) (n : Z) l :
+  zsum (map (fun x => n * g x) l) = n * zsum (map g l).
+Proof.
+  induction l as [|x l IH]; [cbn; lia|]. cbn [map]. rewrite !zsum_cons, IH. lia.
+Qed.
+
+(* An interleaved segment in which every channel has [n] values per chunk:
+   the chunk is [n] rows of [width] bytes (width = sum of the element sizes),
+   and after a cut every channel keeps exactly the number of complete rows. *)
+Theorem interleaved_keeps_whole_rows objs n rem o :
+  forall (Hn : 0 < n)
+         (Hnodup : NoDup (map so_path (data_objs objs)))
+         (Hsame : forall o, In o (data_objs objs) -> so_nvals o = n /\ so_dsize o = n * osz o)
+         (Hin : In o (data_objs objs)),
+    let width := zsum (map osz (data_objs objs)) in
+    zsum (map so_dsize (data_objs objs)) = n * width /\
+    alookup (so_path o) (prop_final objs (n * width) rem) = Some (rem / width).
+Proof.
+  intros. split.
+  - unfold width. rewrite <- zsum_map_scale. f_equal. apply map_ext_in.
+    intros x Hx. apply (Hsame x Hx).
+  - rewrite prop_final_lookup by assumption. destruct (Hsame o Hin) as [-> _].
+    f_equal. apply interleaved_whole_rows; [exact Hn|].
+    unfold width. clear - Hin. induction (data_objs objs) as [|x l IH]; [destruct Hin|].
+    cbn [map]. rewrite zsum_cons. pose proof (osz_pos x).
+    destruct Hin as [Hin|Hin].
+    + assert (0 <= zsum (map osz l)); [|lia].
+      clear. induction l as [|y l IH]; [cbn; lia|]. cbn [map]. rewrite zsum_cons. pose proof (osz_pos y). lia.
+    + specialize (IH Hin). lia.
+Qed.
+
+Example interleaved_ex :
+  let o p n dt := mkSobj p true n (n * match tds_size dt with Some (Some s) => s | _ => 1 end) (Some dt) None in
+  (* rows of 4 + 8 + 2 = 14 bytes, 10 rows per chunk, 45 bytes left: 3 complete rows *)
+  let objs := [o [x61] 10 3; o [x62] 10 10; o [x63] 10 2] in
+  chunk_size objs = Ok 140 /\
+  prop_final objs 140 45 = [([x61], 3); ([x62], 3); ([x63], 3)] /\
+  final_chunk_lengths TOC_INTERLEAVED true objs 140 45 = Ok (prop_final objs 140 45).
+Proof. vm_compute. repeat split. Qed.
+
+(* ======================================================================== *)
+(* A4 -- DAQmx: whole rows of each raw buffer, buffers in order               *)
+(* ======================================================================== *)
+
+Definition dbytes (d : Z * Z) : Z := fst d * snd d.
+
+(* structure: buffers kept whole, then one cut to whole rows, then empty ones *)
+Theorem daqmx_final_structure dims : forall rem,
+  forall (Hdims : forall d, In d dims -> 0 <= dbytes d) (Hrem : 0 <= rem),
+  exists pre rest,
+    dims = pre ++ rest /\
+    0 <= rem - zsum (map dbytes pre) /\
+    (pre <> [] -> zsum (map dbytes pre) < rem) /\
+    daqmx_buffer_lengths dims rem
+    = map fst pre ++ match rest with
+                     | [] => []
+                     | d :: post => (rem - zsum (map dbytes pre)) / snd d :: map (fun _ => 0) post
+                     end /\
+    match rest with
+    | [] => True
+    | d :: post => rem - zsum (map dbytes pre) <= dbytes d
+    end.
+Proof.
+  induction dims as [|[n w] r IH]; intros rem Hdims Hrem.
+  - exists [], []. cbn. repeat split; try lia. intros H; contradiction.
+  - cbn [daqmx_buffer_lengths].
+    pose proof (Hdims (n, w) (or_introl eq_refl)) as Hnw. unfold dbytes in Hnw. cbn [fst snd] in Hnw.
+    destruct (n * w <? rem) eqn:E.
+    + destruct (IH (rem - n * w) (fun d H => Hdims d (or_intror H)) ltac:(lia))
+        as (pre & rest & Hsplit & Hge & Hlt & Hlens & Hrest).
+      exists ((n, w) :: pre), rest. cbn [map app]. rewrite zsum_cons. unfold dbytes at 1 3 5 7. cbn [fst snd].
+      split; [rewrite Hsplit; reflexivity|].
+      split; [lia|].
+      split; [intros _; destruct pre as [|x pre]; [cbn in *; lia|specialize (Hlt ltac:(discriminate)); lia]|].
+      split.
+      * rewrite Hlens. f_equal. f_equal. destruct rest as [|d post]; [reflexivity|].
+        f_equal. f_equal. lia.
+      * destruct rest as [|d post]; [exact I|]. lia.
+    + exists [], ((n, w) :: r). cbn [map app zsum fold_right]. unfold dbytes. cbn [fst snd].
+      split; [reflexivity|]. split; [lia|]. split; [intros H; contradiction|].
+      split; [|lia]. f_equal. f_equal. lia.
+Qed.
+
+Lemma zeros_le (r : list (Z * Z)) :
+  (forall d, In d r -> 0 <= fst d) ->
+  Forall2 (fun len d => 0 <= len <= fst d) (map (fun _ => 0) r) r /\
+  zsum (map (fun p => fst p * snd (snd p)) (combine (map (fun _ => 0) r) r)) = 0.
+Proof.
+  induction r as [|d r IH]; intros H; [split; [constructor|reflexivity]|].
+  destruct IH as [IH1 IH2]; [intros d' Hd'; apply H; right; exact Hd'|].
+  split.
+  - cbn [map]. constructor; [|exact IH1]. specialize (H d (or_introl eq_refl)). lia.
+  - cbn [map combine]. rewrite zsum_cons, IH2. cbn [fst]. lia.
+Qed.
+
+(* bounds: every buffer keeps between 0 and its full number of rows, only whole
+   rows, and the rows kept need no more bytes than are there *)
+Theorem daqmx_final_le dims : forall rem,
+  forall (Hdims : forall d, In d dims -> 0 <= fst d /\ 0 < snd d) (Hrem : 0 <= rem),
+    Forall2 (fun len d => 0 <= len <= fst d) (daqmx_buffer_lengths dims rem) dims /\
+    zsum (map (fun p => fst p * snd (snd p)) (combine (daqmx_buffer_lengths dims rem) dims)) <= rem.
+Proof.
+  induction dims as [|[n w] r IH]; intros rem Hdims Hrem.
+  - cbn. split; [constructor|lia].
+  - cbn [daqmx_buffer_lengths].
+    destruct (Hdims (n, w) (or_introl eq_refl)) as [Hn Hw]. cbn [fst snd] in Hn, Hw.
+    destruct (n * w <? rem) eqn:E.
+    + destruct (IH (rem - n * w) (fun d H => Hdims d (or_intror H)) ltac:(lia)) as [IH1 IH2].
+      split.
+      * constructor; [cbn [fst]; lia|exact IH1].
+      * cbn [combine map]. rewrite zsum_cons. cbn [fst snd]. lia.
+    + destruct (zeros_le r) as [Z1 Z2]; [intros d Hd; apply (Hdims d (or_intror Hd))|].
+      split.
+      * constructor; [|exact Z1]. cbn [fst]. split; [apply Z.div_pos; lia|].
+        apply Z.div_le_upper_bound; lia.
+      * cbn [combine map]. rewrite zsum_cons, Z2. cbn [fst snd].
+        assert (rem / w * w <= rem); [|lia]. rewrite Z.mul_comm. apply Z.mul_div_le. lia.
+Qed.
+
+Lemma daqmx_buffer_lengths_length dims : forall rem,
+  length (daqmx_buffer_lengths dims rem) = length dims.
+Proof.
+  induction dims as [|[n w] r IH]; intros rem; [reflexivity|]. cbn [daqmx_buffer_lengths].
+  destruct (n * w <? rem); cbn [length]; [rewrite IH|rewrite map_length]; reflexivity.
+Qed.
+
+Example daqmx_final_ex :
+  (* buffers of 10 rows x 4 bytes, 10 x 6, 10 x 2; 75 bytes left: 10, 5 (35 / 6), 0 *)
+  daqmx_buffer_lengths [(10, 4); (10, 6); (10, 2)] 75 = [10; 5; 0].
+Proof. vm_compute. reflexivity. Qed.
+
+(* ======================================================================== *)
+(* A5 -- len(channel) of a truncated segment                                  *)
+(* ======================================================================== *)
+
+(* [total] bytes of raw data make a whole number of chunks; the file is cut so
+   that [total'] of them are left.  Whatever final-chunk length [v] between 0
+   and a full chunk's count the reader assigns to the object, it counts at least
+   the values of all complete chunks that survive and no more than the complete
+   segment holds. *)
+Theorem seg_values_truncated_le o csize total total' n' fin' :
+  forall (Hcsize : 0 < csize) (Hcut : 0 <= total' < total) (Hwhole : total mod csize = 0)
+         (Hnvals : 0 <= so_nvals o)
+         (Hn' : n' = nchunks_of total' csize)
+         (Hnone : total' mod csize = 0 -> fin' = None)
+         (Hsome : total' mod csize <> 0 ->
+                  exists f, fin' = Some f /\ 0 <= lookup0 (so_path o) f <= so_nvals o),
+    seg_values o n' fin' <= seg_values o (total / csize) None /\
+    (so_has_data o = true -> so_nvals o * (total' / csize) <= seg_values o n' fin').
+Proof.
+  intros.
+  destruct (truncated_chunk_count csize total total' Hcsize Hcut Hwhole)
+    as (Hle & [Hq0 Hq] & Hnz & Hz).
+  unfold seg_values. destruct (so_has_data o); cbn [negb]; [|split; [lia|discriminate]].
+  destruct (Z.eq_dec (total' mod csize) 0) as [E|E].
+  - rewrite (Hnone E), Hn', (Hz E). split; [nia|intros _; lia].
+  - destruct (Hsome E) as (f & -> & Hf). rewrite Hn', (Hnz E).
+    fold (lookup0 (so_path o) f).
+    replace (1 + total' / csize - 1) with (total' / csize) by lia.
+    split; [nia|intros _; lia].
+Qed.
+
+(* the final-chunk lengths of a segment without DAQmx data, whichever of the
+   three rules applies (unsized data: empty dictionary; interleaved or complete:
+   proportional; contiguous and incomplete: leading channels) *)
+Theorem final_chunk_lengths_le toc inc objs csize rem f o :
+  forall (Hnodaqmx : have_daqmx objs = Ok false)
+         (Hfinal : final_chunk_lengths toc inc objs csize rem = Ok f)
+         (Hnodup : NoDup (map so_path (data_objs objs)))
+         (Hnvals : forall o, In o (data_objs objs) -> 0 <= so_nvals o)
+         (Hrem : 0 <= rem < csize)
+         (Hin : In o (data_objs objs)),
+    0 <= lookup0 (so_path o) f <= so_nvals o.
+Proof.
+  intros. unfold final_chunk_lengths in Hfinal. rewrite Hnodaqmx in Hfinal. cbn [bind] in Hfinal.
+  destruct (existsb _ objs) in Hfinal.
+  - injection Hfinal as <-. unfold lookup0. cbn [alookup]. specialize (Hnvals o Hin). lia.
+  - destruct (toc_has toc TOC_INTERLEAVED || negb inc).
+    + injection Hfinal as <-. fold (prop_final objs csize rem).
+      unfold lookup0. rewrite prop_final_lookup by assumption.
+      apply interleaved_final_le; [apply Hnvals; exact Hin|exact Hrem].
+    + injection Hfinal as <-.
+      apply (contig_final_le objs rem Hnodup Hnvals ltac:(lia)). exact Hin.
+Qed.
+
+(* A5 composed on the model's own functions: the same object list read with the
+   complete raw data ([total] bytes, a whole number of chunks) and with a cut
+   ([total'] bytes). *)
+Theorem calculate_chunks_truncated_le toc inc inc' objs csize total total' n fin n' fin' o :
+  forall (Hnodaqmx : have_daqmx objs = Ok false)
+         (Hcs : chunk_size objs = Ok csize) (Hcsize : 0 < csize)
+         (Hcut : 0 <= total' < total) (Hwhole : total mod csize = 0)
+         (Hnodup : NoDup (map so_path (data_objs objs)))
+         (Hnvals : forall o, In o (data_objs objs) -> 0 <= so_nvals o)
+         (Hfull : calculate_chunks toc inc objs total = Ok (n, fin))
+         (Htrunc : calculate_chunks toc inc' objs total' = Ok (n', fin'))
+         (Hin : In o (data_objs objs)),
+    fin = None /\ n = total / csize /\
+    so_nvals o * (total' / csize) <= seg_values o n' fin' <= seg_values o n fin.
+Proof.
+  intros.
+  destruct (calculate_chunks_count toc inc objs total csize n fin Hcs Hcsize ltac:(lia) Hfull)
+    as (Hn & Hfin & _).
+  destruct (calculate_chunks_count toc inc' objs total' csize n' fin' Hcs Hcsize ltac:(lia) Htrunc)
+    as (Hn' & Hfin' & Hfin'').
+  rewrite (Hfin Hwhole). split; [reflexivity|].
+  assert (En : n = total / csize).
+  { rewrite Hn. unfold nchunks_of. rewrite Hwhole. reflexivity. }
+  split; [exact En|]. rewrite En.
+  assert (Hhd : so_has_data o = true).
+  { unfold data_objs in Hin. apply filter_In in Hin. apply Hin. }
+  destruct (seg_values_truncated_le o csize total total' n' fin' Hcsize Hcut Hwhole
+              (Hnvals o Hin) Hn' Hfin') as [Hub Hlb].
+  - intros E. destruct (Hfin'' E) as (f & Ef & Hf). exists f. split; [exact Ef|].
+    apply (final_chunk_lengths_le toc inc' objs csize (total' mod csize) f o); try assumption.
+    apply Z.mod_pos_bound. exact Hcsize.
+  - split; [apply Hlb; exact Hhd|exact Hub].
+Qed.
+
+Example calculate_chunks_truncated_ex :
+  let o p n := mkSobj p true n (n * 4) (Some 3) None in
+  let objs := [o [x61] 10; o [x62] 5] in      (* 60-byte chunks, 3 of them = 180 bytes *)
+  calculate_chunks TOC_RAW false objs 180 = Ok (3, None) /\
+  calculate_chunks TOC_RAW true objs 170 = Ok (3, Some [([x61], 10); ([x62], 2)]) /\
+  calculate_chunks TOC_RAW true objs 150 = Ok (3, Some [([x61], 7)]) /\
+  map (fun ob => seg_values ob 3 None) objs = [30; 15] /\
+  map (fun ob => seg_values ob 3 (Some [([x61], 10); ([x62], 2)])) objs = [30; 12] /\
+  map (fun ob => seg_values ob 3 (Some [([x61], 7)])) objs = [27; 10].
+Proof. vm_compute. repeat split. Qed.
